@@ -75,7 +75,13 @@ def check_bban(rec: Rec, cc: str, bban: str, origin="gen"):
 
 
 def replay(rec, case):
+    if case["input"].get("origin") == "configurations":
+        from ._configs import replay as _r
+        return _r(rec, case)
     i = case["input"]
+    if i.get("origin") == "size-extremes":
+        size_extremes(rec, case.get("seed", 1), case.get("tier", "quick"))
+        return
     check_bban(rec, i["cc"], i["bban"], i.get("origin", "replay"))
 
 
@@ -192,16 +198,66 @@ def shard(arg):
     return rec
 
 
+SIZE_EXTREMES = {
+    # 34 characters is the longest IBAN ISO 13616 allows (the longest bundled one has 33); a registry update or overlay may add one
+    "ZV": {"bban_spec": "4!a6!n20!c", "bban_length": 30, "positions": {"bank_code": [0, 4], "branch_code": [4, 10], "account_code": [10, 30]}},
+    "ZT": {"bban_spec": "30!n", "bban_length": 30, "positions": {"bank_code": [0, 8], "account_code": [8, 30]}},
+    "ZS": {"bban_spec": "29!c", "bban_length": 29, "positions": {"bank_code": [0, 4], "account_code": [4, 29]}},
+    "ZU": {"bban_spec": "2!n3!n", "bban_length": 5, "positions": {"bank_code": [0, 2], "account_code": [2, 5]}},
+}
+
+
+def size_extremes(rec: Rec, seed, tier):
+    """Countries of extreme length added by an overlay file (package copy): from_bban and the 100 pairs as above."""
+    import random
+    from .. import gens as gens_mod
+    from ..engines.pkgcopy import PackageCopy
+    from ..oracles.core import IbanOracle, load_table, repo_root
+    rng = random.Random(f"{seed}:C02:sizes")
+    overlay = {cc: {"country": cc, "in_sepa_zone": False, "iban_spec": cc + "2!n" + spec["bban_spec"],
+                    "iban_length": spec["bban_length"] + 4, **spec} for cc, spec in SIZE_EXTREMES.items()}
+    with PackageCopy(repo_root(), iban_files={"zz_sizes.json": overlay}, keep_bundled_bank=True) as pc:
+        eff = IbanOracle(load_table(pc.iban_dir))
+        g = gens_mod.Gen(eff)
+        cases = [(cc, g.bban(cc, rng, v)) for cc in SIZE_EXTREMES for v in ["min", "max", "letters", "random"] + ["random"] * (0 if tier == "quick" else 20)]
+        ops = []
+        for cc, b in cases:
+            ops.append({"op": "from_bban", "cc": cc, "bban": b})
+            ops += [{"op": "iban_verdict", "text": f"{cc}{d:02d}{b}"} for d in range(100)]
+        res = pc.query(ops)
+        if isinstance(res, dict):
+            rec.fail("copy_import_fails|size-extremes", "from_bban_valid", {"cc": "ZV", "bban": "", "origin": "size-extremes"}, "imports",
+                     res["import_error"][-300:])
+            return
+        for k, (cc, b) in enumerate(cases):
+            want = canonical_digits(cc, b)
+            inp = {"cc": cc, "bban": b, "origin": "size-extremes", "layout": SIZE_EXTREMES[cc]}
+            r = res[k * 101]
+            if r.get("ok") != cc + want + b:
+                rec.fail("from_bban_rejects|size-extremes" if "ok" not in r else "from_bban_wrong_digits|size-extremes", "from_bban_valid", inp,
+                         cc + want + b, r)
+            accepted = [f"{d:02d}" for d in range(100) if "ok" in res[k * 101 + 1 + d]]
+            if accepted != [want]:
+                rec.fail("pairs|size-extremes|" + ("alias_accepted" if len(accepted) > 1 else "canonical_rejected"), "exactly_one_pair", inp,
+                         [want], accepted)
+            rec.evals += 100
+            rec.classes["bban-size-extreme"] += 1
+            rec.nt.add(hash((cc, b)))
+
+
 def run(ctx):
     o = oracle()
     import vlib.lib  # noqa: F401
     ctx.rule = ("For every bundled country: structure-conforming BBANs (all-min, all-max, letters-only, digits-only, "
                 "random) plus BBANs solved so that the canonical digits are 02, 03, 97, 98 (so that the congruent "
-                "aliases 99, 00, 01 exist); for each, from_bban and all 100 pairs. Non-trivial = every distinct "
+                "aliases 99, 00, 01 exist); countries of 9, 33 and 34 characters added by an overlay (package copy); for each, from_bban and all 100 pairs. Non-trivial = every distinct "
                 "(country, BBAN) (each sweep contains the accepted pair); evaluations counts pairs.")
     ctx.explanation = ("Oracle: own mod 97-10 (98 - num(bban+cc+'00') mod 97). Relations: from_bban(cc, bban) is valid, "
                        "equals cc+canonical+bban, digits in 02..98; of the 100 texts cc+dd+bban exactly the canonical one "
                        "is accepted by IBAN().")
     ctx.assumptions = ["BBAN sampling per country is random; the pair dimension is exhaustive"]
     ctx.pmap(shard, [(cc, ctx.seed, ctx.tier) for cc in o.countries()])
-    ctx.require_classes("bban", "bban-alias-adjacent", "bban-with-congruent-alias", "bban-zero-run", "bban-token", "bban-block-collision")
+    size_extremes(ctx.rec, ctx.seed, ctx.tier)
+    from ._configs import stage as _config_stage
+    _config_stage(ctx, ['assemble'])
+    ctx.require_classes("bban-size-extreme", "bban", "bban-alias-adjacent", "bban-with-congruent-alias", "bban-zero-run", "bban-token", "bban-block-collision")
